@@ -310,7 +310,7 @@ def toast_tile_for_point(depth, lat, lon, coordsys=ToastCoordinateSystem.ASTRONO
     return tile
 
 
-def toast_tile_get_coords(tile):
+def toast_tile_get_coords(tile, coordsys=ToastCoordinateSystem.ASTRONOMICAL):
     """
     Get the coordinates of the pixel centers of a TOAST Tile.
 
@@ -318,12 +318,32 @@ def toast_tile_get_coords(tile):
     ----------
     tile : :class:`Tile`
         A TOAST tile
+    coordsys : optional :class:`ToastCoordinateSystem`
+        The TOAST coordinate system to use. This is only consulted for the
+        level-0 tile, which does not carry any coordinates of its own. Default
+        is :attr:`ToastCoordinateSystem.ASTRONOMICAL`.
 
     Returns
     -------
     A tuple ``(lons, lats)``, each of which is a 256x256 array of longitudes and
     latitudes of the tile pixel centers, in radians.
     """
+
+    if tile.pos.n == 0:
+        # The corners of the level-0 tile are not meaningful, but its
+        # pixelization is: it consists of the four level-1 tiles at half
+        # resolution.
+        lons = np.empty((256, 256))
+        lats = np.empty((256, 256))
+
+        for t in _create_level1_tiles(coordsys):
+            ix = slice(128 * t.pos.x, 128 * (t.pos.x + 1))
+            iy = slice(128 * t.pos.y, 128 * (t.pos.y + 1))
+            lons[iy, ix], lats[iy, ix] = subsample(
+                t.corners[0], t.corners[1], t.corners[2], t.corners[3], 128, t.increasing
+            )
+
+        return lons, lats
 
     return subsample(
         tile.corners[0],
@@ -370,7 +390,7 @@ def toast_pixel_for_point(depth, lat, lon, coordsys=ToastCoordinateSystem.ASTRON
     # Now that we have the tile, get its pixel locations and identify the pixel
     # that is closest to the input position.
 
-    lons, lats = toast_tile_get_coords(tile)
+    lons, lats = toast_tile_get_coords(tile, coordsys=coordsys)
 
     # The longitudes of the tile's pixels may be on a different branch than the
     # query longitude (they can be negative or exceed 2pi), so express them
@@ -665,7 +685,7 @@ def sample_layer(
     from .pyramid import Pyramid
 
     p = Pyramid.new_toast(depth, coordsys=coordsys)
-    proc = ToastSampler(pio, sampler, True, format=format)
+    proc = ToastSampler(pio, sampler, True, format=format, coordsys=coordsys)
     p.visit_leaves(proc.visit_callback, parallel=parallel, cli_progress=cli_progress)
 
 
@@ -710,7 +730,7 @@ def sample_layer_filtered(
     from .pyramid import Pyramid
 
     p = Pyramid.new_toast_filtered(depth, tile_filter, coordsys=coordsys)
-    proc = ToastSampler(pio, sampler, False, format=format)
+    proc = ToastSampler(pio, sampler, False, format=format, coordsys=coordsys)
     p.visit_leaves(proc.visit_callback, parallel=parallel, cli_progress=cli_progress)
 
 
@@ -732,6 +752,10 @@ class ToastSampler(object):
     format : optional :class:`str`
         If provided, override the default data storage format of *pio* with the
         named format, one of the values in ``toasty.image.SUPPORTED_FORMATS``.
+    coordsys : optional :class:`ToastCoordinateSystem`
+        The TOAST coordinate system to use when sampling the level-0 tile, for
+        which the pyramid does not provide tile coordinates. Default is
+        :attr:`ToastCoordinateSystem.ASTRONOMICAL`.
 
     Notes
     -----
@@ -739,15 +763,27 @@ class ToastSampler(object):
     the :meth:`toasty.pyramid.Pyramid.visit_leaves` function. This class
     preserves some state between calls to help speed up processing."""
 
-    def __init__(self, pio, sampler, clobber, format=None):
+    def __init__(
+        self,
+        pio,
+        sampler,
+        clobber,
+        format=None,
+        coordsys=ToastCoordinateSystem.ASTRONOMICAL,
+    ):
         self._pio = pio
         self._sampler = sampler
         self._clobber = clobber
         self._format = format
+        self._coordsys = coordsys
         self._invert_into_tiles = pio.get_default_vertical_parity_sign() == 1
 
     def visit_callback(self, pos, tile):
-        lon, lat = toast_tile_get_coords(tile)
+        if tile is None:
+            # This happens for the level-0 tile of a depth-0 pyramid.
+            tile = Tile(pos, (None, None, None, None), False)
+
+        lon, lat = toast_tile_get_coords(tile, coordsys=self._coordsys)
         sampled_data = self._sampler(lon, lat)
 
         if self._invert_into_tiles:
